@@ -41,13 +41,15 @@ def tuples_of(ent, tier="quick"):
     wide = 2 if (tier == "thorough" and len(ent["vars"]) >= 4) else 0     # thorough: the many-variable entries reach sizes 5..6 too
     doms = [range(lo - (wide if lo < 0 else 0), hi + wide + 1) for _, lo, hi in ent["vars"]]
     dc = ent["dontcare"]
-    return [t for t in itertools.product(*doms) if not (dc and dc(*t))]
+    # degenerate tuples are exempt only in the direction "conformable => must return"; a MISMATCHED / out-of-range call must
+    # be rejected on degenerate receivers too (the size guards come first)
+    return [t for t in itertools.product(*doms) if not (dc and dc(*t) and ent["ok"](*t))]
 
-def mk(ent, ts, part):
+def mk(ent, ts, part, with_term=True):
     k = len(ent["vars"])
     line = "guard.%s %d %s" % (ent["key"], k, " ".join(str(x) for t in ts for x in t))
     term = None
-    if not ent["native"]:
+    if not ent["native"] and with_term:
         apps = "; ".join("g_%s %s" % (ent["key"], " ".join("(%d)%%Z" % x for x in t)) for t in ts)
         term = "concat (map (fun b : bool => [0%%Z; if b then 1%%Z else 0%%Z]) [%s])" % apps
     oks = [bool(ent["ok"](*t)) for t in ts]
@@ -65,8 +67,13 @@ def generate(rng, tier):
         _counts["tuples"] += len(ts)
         for t in ts:
             _counts["accepted" if ent["ok"](*t) else "rejected"] += 1
-        for i in range(0, len(ts), CHUNK):
-            cases.append(mk(ent, ts[i:i + CHUNK], i // CHUNK))
+        nm = ent["nomodel"]
+        tm = [t for t in ts if not (nm and nm(*t))]
+        tr = [t for t in ts if nm and nm(*t)]          # usize arithmetic of the guard itself underflows: executor + oracle only
+        for i in range(0, len(tm), CHUNK):
+            cases.append(mk(ent, tm[i:i + CHUNK], i // CHUNK))
+        if tr:
+            cases.append(mk(ent, tr, 0, with_term=False))
     for ty in ("vector", "matrix", "banded", "tridiagonal", "polynomial"):
         cases.append(Case("f64", "guard.clone_%s %s" % (ty, " ".join(str(n) for n in range(0, 7))), None,
                           meta={"clone": ty}, family="clone", nontrivial=True))
